@@ -84,6 +84,8 @@ CHECKS = {
         "jobs": [
             {"run": "^TestC05Burst$", "n": {"quick": 6000, "thorough": 40000}},
             {"run": "^TestC05Suppression$", "n": {"quick": 6000, "thorough": 40000}},
+            {"run": "^TestC01Sweep$", "name": "C01Sweep-for-C05", "n": {"quick": 1, "thorough": 1}, "tiers": ("thorough",),
+             "shards": {"quick": 1, "thorough": 16}},
         ],
     },
     "C06": {
